@@ -5,7 +5,7 @@ graph route likewise with the link triple) is equal, row by row, to the step rul
 the iff: a missing conjunct over-merges, an extra one under-merges; the side asked of the neighbour, the canonicalisation
 and the operands of join/availability are the specified ones; the growth loops leave only on Terminal and walk both
 directions from every seed; palindrome definition and the Exts query lemmas (one bit layout for all queries)."""
-from .. import dt_compress, dt_tables, lemmas
+from .. import dt_compress, dt_tables, dt_graph, lemmas
 from . import common
 
 ASSUMPTIONS = ["rows where the neighbour reports no incoming extension are outside the property's precondition (symmetric extensions)"]
@@ -20,5 +20,9 @@ def run(F, rep):
     dt_compress.hash_builder_table(F, rep, "C02.3")
     dt_compress.graph_builder_table(F, rep, "C02.3")
     dt_compress.hash_driver_table(F, rep, "C02.3")
+    dt_compress.graph_driver_table(F, rep, "C02.3")
+    # the pruning the graph route relies on before it walks (a pruned real link hides a branch)
+    dt_graph.get_valid_exts_table(F, rep, "C02.4")
+    dt_graph.fix_exts_table(F, rep, "C02.4")
     common.run_kmer_lemmas(F, rep, {"canon"})
     lemmas.exts_lemmas(F, rep)
